@@ -27,6 +27,10 @@ class ExprArrayProductModel(ExprDynamicModel):
     def build(self, btor, ctx_width=-1):
         return self.arr.build_product_expr(btor, ctx_width);
     
+    def val(self):
+        # Value over the elements' current values (for non-random lists)
+        return self.arr.get_product_expr().val()
+
     def accept(self, v):
         v.visit_expr_array_product(self)
     
